@@ -127,8 +127,7 @@ func (c *compactJob) mergeCompaction() (err error) {
 		return err
 	}
 	// if merge success install compaction results into manifest
-	c.installCompactionResults()
-	return nil
+	return c.installCompactionResults()
 }
 
 // doMerge merges the input files based on merger interface which need use implements
@@ -192,7 +191,7 @@ func (c *compactJob) doMerge() error {
 // 1. mark input files is deletion which compaction job picked.
 // 2. add output files to up level.
 // 3. commit edit log for manifest.
-func (c *compactJob) installCompactionResults() {
+func (c *compactJob) installCompactionResults() error {
 	if c.rollup == nil {
 		// if it does compact job, need mark compaction input files for deletion
 		c.state.compaction.MarkInputDeletes()
@@ -205,7 +204,11 @@ func (c *compactJob) installCompactionResults() {
 	for _, output := range c.state.outputs {
 		c.state.compaction.AddFile(level, output)
 	}
-	c.family.commitEditLog(c.state.compaction.GetEditLog())
+	if ok := c.family.commitEditLog(c.state.compaction.GetEditLog()); !ok {
+		// the outputs are not part of any version: the job failed (a rollup keeps its rollup marks)
+		return fmt.Errorf("commit compaction results failure, family: %s", c.family.familyInfo())
+	}
+	return nil
 }
 
 // makeInputIterator makes a merged iterator by compaction pick input files
